@@ -2,7 +2,7 @@
 import itertools
 from .. import cfg as C
 from ..flow import ExprBuilder, mentions_field, mentions_call, is_call, walk, walk_until, show, \
-    cond_switches, guarded, X
+    cond_switches, guarded, X, Sccp
 from ..flow import strip as strip_
 from . import c16
 
@@ -213,16 +213,20 @@ def run(ctx):
                            for x in walk(a_)) or any(x.k == "idx" and mentions_call(x, "grep_matcher::Match::end") for x in walk(a_)):
                         return True
                 return False
-            sw = cond_switches(f, ends_with_term, eb)
             key = "locator|" + f.path.split("grep_searcher::", 1)[1]
+            # the comparison itself, wherever its answer goes (a switch, a named flag, the tail of an `&&`)
+            tests = [(bb, j) for bb, j, s_ in f.stmts() if s_["k"] == "assign" and ends_with_term(eb.rvalue(s_["rv"]))]
+            sw = tests
+
             def decided(c):
-                # the scan is not reachable once the test said "ends with the terminator", and it sits below the test
-                # (or below the head of the `&&` chain the test belongs to)
-                for bb, te, fe, e in sw:
-                    if c.bb in C.reach(f, [te[1]]):
+                # once the comparison said "ends with the terminator" the scan is not reached, and the scan sits below
+                # the comparison (or below the head of the `&&` chain the comparison belongs to)
+                for bb, j in tests:
+                    sx = Sccp(f, stmt_values={(bb, j): I(1)}).run([(bb, {})])
+                    if c.bb in sx.exec_blocks:
                         return False
-                heads = {bb for bb, te, fe, e in sw}
-                for bb, te, fe, e in sw:
+                heads = {bb for bb, j in tests}
+                for bb, j in tests:
                     for i, b in enumerate(f.blocks):
                         if C.bool_switch(f, i) and C.dominates(f, i, bb):
                             heads.add(i)
